@@ -996,6 +996,16 @@ def sessBulkDeleteM (key w : M) (k : V → M) : M :=
     | .py (.str u), .sworld s c Option.none => k (.sworld (stage (Store.erase u) s) c Option.none)
     | _, _ => raiseM
 
+open SqlSession in
+/-- `self.session.query(<element model>).filter(<element model>.uid == uid).delete()`: the rows one uid has in one of the three
+element tables, a pending bulk DELETE.  The session model keeps a policy with its elements as one value under its uid, so this
+statement has no effect of its own there: it is absorbed by the DELETE of the policy row that the same transaction goes on to stage
+(`gen_sql_delete` only goes through when it does), and undone with it by a rollback. -/
+def sessElemDeleteM (table : String) (key w : M) (k : V → M) : M :=
+  bindM key fun ky => bindM w fun w => match ky, w with
+    | .py (.str _), .sworld s c Option.none => k (.sworld s c Option.none)
+    | _, _ => raiseM
+
 /-- `self.session.query(PolicyModel).order_by(PolicyModel.uid.asc()).slice(start, stop)`: `LIMIT stop - start OFFSET start` over the
 session's view ordered by uid -/
 def sessSliceQueryM (start stop w : M) (k : V → V → M) : M :=
